@@ -106,6 +106,45 @@ func TestVerifC12Faults(t *testing.T) {
 			}
 		}
 	}
+	// a multi-member group that carries the identifier of a group of another type this device has already served (its account
+	// group; a contact group, whose private key the contact knows and can sign an invitation with): on the same running
+	// instance, in both orders, the multi-member identity must still not be the account-level one
+	{
+		peer := newVStore("P", 2, 2)
+		cg, err := base.ss.GetGroupForContact(peer.accountPK())
+		if err != nil {
+			rep.Inconclusivef("contact group: %v", err)
+			return
+		}
+		for name, other := range map[string]*protocoltypes.Group{"account-group-id": ag, "contact-group-id": cg} {
+			for order := 0; order < 2; order++ {
+				st := newVStoreOn("same-id", base.ds.Clone(), 2, 2)
+				mm := &protocoltypes.Group{PublicKey: other.PublicKey, Secret: other.Secret, SecretSig: other.SecretSig, GroupType: protocoltypes.GroupType_GroupTypeMultiMember}
+				if order == 0 {
+					_, _ = st.ss.GetOwnMemberDeviceForGroup(other) // the group of the other type is served first
+				}
+				var md OwnMemberDevice
+				var err error
+				tag := fmt.Sprintf("same-identifier/%s/order=%d", name, order)
+				if pnc, stack := verifkit.Try(func() { md, err = st.ss.GetOwnMemberDeviceForGroup(mm) }); pnc != nil {
+					rep.Violate("C12/panic/under-faults", fmt.Sprintf("%v", pnc), map[string]interface{}{"case": tag, "stack": stack})
+					continue
+				}
+				rep.Eval(1)
+				rep.Case(tag)
+				if err != nil {
+					rep.Count("calls_that_failed", 1)
+					continue
+				}
+				m, d := md.Member(), md.Device()
+				if m.Equals(accountPK) || m.Equals(proofPK) || m.Equals(accDev) || d.Equals(accountPK) || d.Equals(proofPK) || d.Equals(accDev) {
+					rep.Violate("C12/account-identity-in-group/same-identifier-other-type", "a multi-member group whose identifier this device had met as an account/contact group is served with account-level keys", tag)
+				} else {
+					rep.Count("identities_ok", 1)
+				}
+			}
+		}
+	}
 	rep.Sample(map[string]interface{}{"plans": []string{"kth-access-fails-once", "read-only-datastore", "writes-fail-from-kth-access"}, "accesses_per_call": total})
 	if rep.Counter("identities_ok") == 0 || rep.Counter("calls_that_failed") == 0 {
 		if rep.ViolationCount() == 0 {
